@@ -19,7 +19,7 @@ CHECKS = {
          "Exploration: every checksummed frame type × every registered body type × body kinds × buffer histories (prior content, partly consumed, reallocation) × stale values; the checksum span is pinned to the bytes this Encode appended; frames whose CRC-32 is exactly 0, 1, 0xFFFFFFFF or the stale value are constructed by solving the CRC over GF(2); re-run with services that read their input buffer to the end. Holds on the executions observed.",
          "Own checksum implementations are self-tested on published check values.", "§3 C05"),
  "C06": ("runtime differential monitor: encode under 9 buffer histories vs. encode of a deep clone into a fresh buffer; prefix-preservation, re-encode and sequence-concatenation oracles",
-         "Exploration: all 170 types × generated values × 9 buffer histories, re-encodes of the same object, and mixed-type sequences with partial drains and interleaved encodes that must fail (over-long list, unregistered key, caller-supplied body that writes N bytes and refuses); re-run with services that read their input buffer to the end. Holds on the executions observed.",
+         "Exploration: all 170 types × generated values × 9 buffer histories, re-encodes of the same object, and mixed-type sequences with partial drains and interleaved encodes that must fail (over-long list, unregistered key, caller-supplied body that writes N bytes and refuses); an equal message encoded first and then overwritten in place; re-run with services that read their input buffer to the end. Holds on the executions observed.",
          "Trusts bytes.Buffer and the harness deep-clone.", "§3 C06"),
  "C07": ("runtime monitor of buffer state after Decode: unread remainder compared byte-for-byte with the known tail; stream oracle over mixed frame sequences",
          "Exploration: all 170 types × generated canonical values × 4 kinds of trailing bytes, plus mixed-type streams (concatenated and through one shared send buffer) decoded by n successive calls. Holds on the executions observed.",
@@ -49,7 +49,7 @@ CHECKS = {
          "Exploration: all 170 types × valid, wire-level and mutated images × 7 receiver histories (populated object, previously decoded other image, after a failed truncated decode, aliased sub-objects with numeric lists sharing one backing array, near miss of the expected result, decoded-then-failed, hand-built with mismatching discriminator and body). Holds on the executions observed.",
          "Receiver histories are generated, not enumerated.", "§3 C15"),
  "C16": ("runtime aliasing monitor: snapshot comparison after scribbling over / reusing the source bytes and after mutating the message; pooled-object random walk judged against the stateless reference interpreter; repeated under the race-detector build (checkptr)",
-         "Exploration: all 170 types × values with non-empty lists; decoded message vs deep snapshot after complementing the backing array, resetting/reusing the buffer, decoding another message; written bytes vs snapshot after in-place mutation of the message; a pool of long-lived objects and buffers reused for many random operations (no operation may change another object; every result must equal the stateless reference); small frames decoded from a 96 MiB source; decodes after 300 000 distinct texts; encoder-filled bodies of different messages must be independent; zero checkptr/race aborts in the instrumented run.",
+         "Exploration: all 170 types × values with non-empty lists; decoded message vs deep snapshot after complementing the backing array, resetting/reusing the buffer, decoding another message; written bytes vs snapshot after in-place mutation of the message; a pool of long-lived objects and buffers reused for many random operations (no operation may change another object; every result must equal the stateless reference); small frames decoded from a 96 MiB source; decodes after 300 000 distinct texts; an equal twin overwritten in place; lists kept by the caller across receiver reuse; encoder-filled bodies of different messages must be independent; zero checkptr/race aborts in the instrumented run.",
          "checkptr flags only invalid unsafe conversions; valid zero-copy aliases are caught by the snapshot oracle instead.", "§3 C16"),
  "C17": ("runtime monitor with panic trap and child-process isolation over zero, constructor and arbitrary values of every type",
          "Exploration: every type × zero value, constructor result, arbitrary field contents, every registered key with nil body, unregistered keys, each nested pointer part nil, every text length 0..2200 and list count 0..1100, frames whose body must refuse (thorough: 70 000-element lists), into nine kinds of destination buffer; checksummed frames also with their service unregistered. A panic or a dead child refutes.",
@@ -61,7 +61,7 @@ CHECKS = {
          "Exploration over schedules: thousands of short, genuinely overlapping histories of Registry/Get/Remove/Clear with unique-id services are recorded at the client boundary and checked; the same workload runs under -race; drain histories (70 names removed one by one while others register); ten fresh processes start with Clear/Remove/Registry/Get on the built-in names as their very first registry calls, five of them with frame encodes/decodes in between while the name holds nothing, a built-in, or a service of another result type (library work never changes the registry). Holds on the histories and accesses observed.",
          "Monitors use no shared state inside the measured region; checker timeouts are inconclusive.", "§3 C19"),
  "C20": ("Go race detector plus result-equality oracle over 64 goroutines encoding/decoding private objects of all types; fresh-process first-use trials",
-         "Exploration over schedules: parallel results are compared with sequentially precomputed ones for all 170 types while the checksum registry and 18 discriminator maps are read concurrently and the four checksum services are also called directly, with aligned failing encodes in between; 16 goroutines hammering different keys of one discriminator table at a time; the workload runs in a plain, a -race and a registry-emptied child; -race build reports are counted from the log; first-use trials start every table's first access concurrently in fresh processes.",
+         "Exploration over schedules: parallel results are compared with sequentially precomputed ones for all 170 types while the checksum registry and 18 discriminator maps are read concurrently and the four checksum services are also called directly, with aligned failing encodes in between; 16 goroutines hammering different keys of one discriminator table at a time; failure bursts (a failing encode then a burst of ordinary ones, on 32 goroutines at once); the workload runs in a plain, a -race and a registry-emptied child; -race build reports are counted from the log; first-use trials start every table's first access concurrently in fresh processes.",
          "The race detector judges only accesses performed by the workload.", "§3 C20"),
 }
 NOT_YET = {}
